@@ -99,10 +99,12 @@ def run(chk):
         # ------------------------------------------------------------------ GMM ML / MAP
         w, mu, var, s, Xg = gt.gen_training(r, N=n)
         C, Dg = mu.shape
-        sw = (True, r.random() < 0.7, r.random() < 0.7)
+        # all switch settings over the rounds (frozen means with updated variances included), and a raised count threshold in every third round
+        sw = [(True, True, True), (False, True, True), (True, False, True), (False, True, False), (True, True, False)][rd % 5]
+        eps_g = [0.3, 0.05][(rd // 3) % 2] if rd % 3 == 2 else float(np.finfo(float).eps)
         capg = r.choice([2, 3])
         for trainer in ("ml", "map"):
-            cfg = dict(w=w, mu=mu, var=var, thr=None, sw=sw, eps=float(np.finfo(float).eps), cap=capg, cthr=r.choice([None, 1e-4]))
+            cfg = dict(w=w, mu=mu, var=var, thr=None, sw=sw, eps=eps_g, cap=capg, cthr=r.choice([None, 1e-4]))
             if trainer == "map":
                 cfg = dict(cfg, w=None, mu=None, var=None, map=dict(relevance=4.0, alpha=0.5, prior=(w, mu + 0.5 * s, var, None)))
 
@@ -138,6 +140,22 @@ def run(chk):
                 continue
             explore("GMM %s" % trainer.upper(), n, Dg, g_ref, g_dask, g_cmp, feat_ok=True,
                     data={"X": hexlist(Xg), "w": hexlist(w), "mu": hexlist(mu), "var": hexlist(var), "switches": list(sw), "cap": capg, "cthr": cfg["cthr"]})
+        # ---- a raised count threshold is a rule about the TOTAL count of a component, not about its count inside one block: one EM iteration from the
+        #      generating parameters (well conditioned) on single-row blocks and on a random blocking, every round
+        for thr_n in (0.3, 0.05):
+            cfg1 = dict(w=w, mu=mu, var=var, thr=None, sw=(True, True, True), eps=thr_n, cap=1, cthr=None)
+            mref, _ = gt.build_machine(cfg1)
+            gt.run_fit(mref, Xg)
+            if not gt.well_conditioned(mref, Xg):
+                continue
+            for rows in (tuple([1] * len(Xg)), tuple(gen.random_composition(r, len(Xg), 4))):
+                md_, _ = gt.build_machine(cfg1)
+                md_.fit(da.from_array(Xg, chunks=(rows, (Dg,))))
+                chk.count(1, key=("GMM ML, raised count threshold", len(rows)))
+                badp = [nm for nm in ("means", "variances", "weights") if not close(getattr(md_, nm), getattr(mref, nm), rtol=1e-8, atol=1e-10)]
+                if badp:
+                    chk.fail("GMM ML with mean_var_update_threshold=%g: one iteration on a Dask array (row blocks %s) differs from the in-memory result in %s" % (thr_n, rows, badp),
+                             {"X": hexlist(Xg), "w": hexlist(w), "mu": hexlist(mu), "var": hexlist(var), "row_chunks": list(rows), "threshold": thr_n})
         # ------------------------------------------------------------------ ISV / JFA from labelled arrays
         if rd % 2 == 0:
             ubm, su = fa.gen_ubm(r, C=2, D=2)
